@@ -10,7 +10,7 @@ m={"version":1,
  "setup_cmd":"cd /verif/engine && GOFLAGS=-mod=mod GOPROXY=off GOSUMDB=off GOTOOLCHAIN=local go build -o /verif/bin/govc .",
  "hooks":{"guard":"verif","enable":"contracts are comment-only files kernel/**/zz_contracts_verif.go behind //go:build verif; the checks read them as text (nothing is compiled into the kernel), so the code verified is exactly the code built without the tag","baseline_off_cmd":"cd /repo/kernel && GOFLAGS=-mod=mod go test -vet=off -count=1 ./... ; cd /repo/kbuild && GOFLAGS=-mod=mod go test -vet=off -count=1 ./...","source_commits":src,"add_only":True},
  "engines":[{"name":"govc","path":"/verif/engine","serves_properties":sorted(checks.keys()),"kind_free_text":"self-written deductive verifier for Go: go/ssa -> path-wise verification conditions from Gobra-style contracts (requires/ensures/invariant/decreases/modifies/ghost) -> SMT-LIB, discharged by z3 5.1.0 / cvc5 1.0 / z3 4.8.12"}],
- "checks":[], "not_applicable":[], "notes":"See DESIGN.md. Contracts live in /repo/kernel/**/zz_contracts_verif.go (hook commits). known_findings.json lists fixed defects. seeded/ holds independently produced property-breaking changes used to test the checks."}
+ "checks":[], "not_applicable":[], "notes":"See DESIGN.md (section 12 = as built). quick and thorough run the same obligations; thorough uses longer solver limits and re-checks every discharged obligation with a second solver. Contracts live in /repo/kernel/**/zz_contracts_verif.go (hook commits). known_findings.json lists fixed defects. seeded/ holds independently produced property-breaking changes used to test the checks."}
 for p in props:
     id=p['id']
     if id in checks:
